@@ -133,7 +133,7 @@ the environment (`envShell` prints variable 0) is served from the entry a task w
 value of that variable created (same directory, same command text). -/
 theorem C11_full_counterexample : ¬ C11_full := by
   intro h
-  have := h ⟨envShell, []⟩ ⟨[], [], 3⟩ [] lyB [(⟨[], [], 3⟩, [], lyA)]
+  have := h ⟨envShell, [], false⟩ ⟨[], [], 3⟩ [] lyB [(⟨[], [], 3⟩, [], lyA)]
   revert this
   decide
 
@@ -145,9 +145,9 @@ theorem cache_key_ok :
 
 /-- non-vacuity: a shell that depends on command and directory only, two tasks sharing a command text -/
 private def dirShell : Shell := fun cmd dir _ => cmd ++ dir
-example : EnvIndep (⟨dirShell, []⟩ : World).shell := fun _ _ _ _ => rfl
-example : get (getVariables ⟨dirShell, []⟩ ⟨[1], [.text [7]], 0⟩ [] [⟨.taskVars, [(5, .sh [.text [9]] none)]⟩]
-      (getVariables ⟨dirShell, []⟩ ⟨[1], [.text [8]], 0⟩ [] [⟨.taskVars, [(5, .sh [.text [9]] none)]⟩] []).cache).env 5
+example : EnvIndep (⟨dirShell, [], false⟩ : World).shell := fun _ _ _ _ => rfl
+example : get (getVariables ⟨dirShell, [], false⟩ ⟨[1], [.text [7]], 0⟩ [] [⟨.taskVars, [(5, .sh [.text [9]] none)]⟩]
+      (getVariables ⟨dirShell, [], false⟩ ⟨[1], [.text [8]], 0⟩ [] [⟨.taskVars, [(5, .sh [.text [9]] none)]⟩] []).cache).env 5
     = [9, 1, 47, 7] := by decide
 
 end Props.C11
